@@ -389,7 +389,7 @@ OWN_LINEAR_CODE = ['JaxExplicitComponent/matrix_free', 'JaxImplicitComponent/mat
 
 def _suspects(classes):
     """classes a whole-model failure (an exception) is named after: those with own linear code, else all."""
-    return '+'.join([c for c in classes if c in OWN_LINEAR_CODE] or classes)
+    return '+'.join([c for c in OWN_LINEAR_CODE if c in classes] or classes)     # fixed order: prefix-matchable
 
 
 def _stock_systems(p, spec, info):
@@ -531,7 +531,7 @@ def run_stock_case(case, acc):
                 first = False
             acc.count('obs:consequence-failures', len(bad) - len(comp_bad))
         else:
-            who = '+'.join([c for c in classes if c in OWN_LINEAR_CODE] or classes)
+            who = _suspects(classes)
             seen = set()
             for what, scope, step, err, tol in bad:
                 if what in seen:
